@@ -148,7 +148,7 @@ def analyze(template: BoundTemplate, *, include_partials: bool) -> TemplateAnaly
     # visited a template before but ith different arguments, later visits
     # only record global variables so as not to double count locals, filters
     # and tags.
-    seen: defaultdict[str, set[object]] = defaultdict(set)
+    seen: defaultdict[object, set[object]] = defaultdict(set)
 
     def _visit(
         node: Node,
@@ -204,10 +204,10 @@ def analyze(template: BoundTemplate, *, include_partials: bool) -> TemplateAnaly
 
             # An inline snippet has no template name of its own. Identify it by the
             # block it resolves to, so one snippet does not stand in for another.
-            seen_name = partial_name
+            seen_name: object = partial_name
             if not partial_name:
                 snippet = list(node.children(static_context, include_partials=include_partials))
-                seen_name = f"\0{id(snippet[0]) if snippet else 0}"
+                seen_name = _snippet_key(snippet)
 
             # If we've seen this partial before but with different arguments,
             # we might want to visit it again but only capture globals.
@@ -288,7 +288,7 @@ async def analyze_async(
     static_context = RenderContext(template)
 
     # Names of partial templates that have already been analyzed.
-    seen: defaultdict[str, set[object]] = defaultdict(set)
+    seen: defaultdict[object, set[object]] = defaultdict(set)
 
     async def _visit(
         node: Node,
@@ -344,10 +344,10 @@ async def analyze_async(
 
             # An inline snippet has no template name of its own. Identify it by the
             # block it resolves to, so one snippet does not stand in for another.
-            seen_name = partial_name
+            seen_name: object = partial_name
             if not partial_name:
                 snippet = list(await node.children_async(static_context, include_partials=include_partials))
-                seen_name = f"\0{id(snippet[0]) if snippet else 0}"
+                seen_name = _snippet_key(snippet)
 
             # If we've seen this partial before but with different arguments,
             # we might want to visit it again but only capture globals.
@@ -407,6 +407,20 @@ async def analyze_async(
         filters=dict(filters),
         tags=dict(tags),
     )
+
+
+def _snippet_key(snippet: list[Node]) -> object:
+    """Identify an inline snippet by the source text and position of its block.
+
+    The identity of a node object will not do. A template that is loaded again is
+    parsed into new nodes, and the address of a node that has been discarded can be
+    handed to a new one, so `id()` neither recognizes a snippet visited before nor
+    keeps two snippets apart.
+    """
+    if not snippet:
+        return ("\0", "", 0)
+    token = snippet[0].token
+    return ("\0", token.source, token.start_index)
 
 
 def _extract_filters(
